@@ -16,6 +16,8 @@ package bfe_basic
 //@ package_invariant[hop_by_hop_table_lists_Transfer-Encoding] listed("Transfer-Encoding")
 //@ package_invariant[hop_by_hop_table_lists_Upgrade] listed("Upgrade")
 
+//@ package_invariant[balancing_errors_are_set_once] ErrBkRetryTooMany != nil && ErrBkNoSubCluster != nil && ErrGslbBlackhole != nil && ErrBkNoBackend != nil && ErrBkNoSubClusterCross != nil && ErrBkCrossRetryBalance != nil
+
 //@ func CreateInternalSrvErrResp
 //@   props C26
 //@   note carrier of the package invariant for C26 (the hop-by-hop table); only its panic-freedom is checked here
@@ -27,3 +29,12 @@ package bfe_basic
 //@   requires s != nil
 //@   modifies nothing
 //@   ensures result0 <==> s.isTrustSource == SessionTrustSource
+
+// ---- C07: which backend a request holds ----
+
+//@ func (*Request).SetRequestTransport
+//@   props C07,C08
+//@   nopanic
+//@   requires req != nil
+//@   modifies req.Trans.Backend, req.Trans.Transport
+//@   ensures req.Trans.Backend == backend && req.Trans.Transport == transport
